@@ -170,7 +170,7 @@ theorem relayAfter_post (T : Tag A c) (m : MonId) (hm : m ≠ A) (src : Option V
   have hAm : ∀ (e : Env) (v : Int), (e.set m v) A = e A := fun e v => Env.set_other e m A v (Ne.symm hm)
   cases o with
   | ret v => exact ⟨hok, hA.set_other m 0 hm, hrest⟩
-  | raise e => exact ⟨hok, hA.set_other m 0 hm, hrest⟩
+  | raise e => cases e <;> exact ⟨hok, hA.set_other m 0 hm, hrest⟩
   | yield y =>
     obtain ⟨hs1, hs2⟩ := hrest
     simp only [relayAfter, relayTop]
